@@ -53,7 +53,7 @@ func init() {
 						}
 					},
 					Run:      func(c *runner.Ctx, i int) { valueCase(c, i, m) },
-					Required: []string{"marshal_ok", "roundtrips", "nested_types"},
+					Required: []string{"marshal_ok", "roundtrips", "nested_types", "large_collections"},
 				}}
 			},
 		}
@@ -282,10 +282,26 @@ func valueCase(c *runner.Ctx, i int, m valMode) {
 		depth = 2 + r.Intn(maxDepth-1)
 	}
 	t := gen.TypeTree(r, depth, proto)
+	// now and then: collections around the limits of the 2-byte framing of protocol 1/2 (element counts and
+	// element sizes of 2^15 .. 2^16), which generated values never reach
+	var largeVals []cqlref.Val
+	large := i%5000 == 7
+	if large {
+		t, largeVals = largeCollection(r, proto)
+		c.Add("large_collections", 1)
+	}
 	ti := typeInfo(t, proto)
 	opts := gen.Opts{Proto: proto, AllowNull: proto >= 3, OutOfRange: 12}
 	for k := 0; k < 6; k++ {
-		v := gen.Value(r, t, opts)
+		var v cqlref.Val
+		if large {
+			if k >= len(largeVals) {
+				break
+			}
+			v = largeVals[k]
+		} else {
+			v = gen.Value(r, t, opts)
+		}
 		sf := pickForm(r, t, []cqlref.Val{v}, dirMarshal, false, proto)
 		if sf == nil {
 			c.Add("no_form", 1)
@@ -313,7 +329,7 @@ func valueCase(c *runner.Ctx, i int, m valMode) {
 		}
 		if err != nil {
 			c.Add("marshal_err", 1)
-			if inRange && m == modeC12 {
+			if inRange && m == modeC12 && refErr == nil { // (a reference error: the value is not expressible in this protocol version)
 				bt, bf, bc := blameEncodingErr(t, sf, v, proto)
 				c.Violation(fmt.Sprintf("C12:unexpected-marshal-error:%s:%s:%s", bt, bf, bc), "Marshal refused a value inside the CQL type's range given as a documented Go type: "+err.Error(), wit(err.Error()))
 			}
@@ -584,4 +600,51 @@ func zeroLike(a, z reflect.Value) bool {
 		return true // a null integer read into *string is formatted as the number 0
 	}
 	return reflect.DeepEqual(a.Interface(), z.Interface())
+}
+
+// largeCollection builds a list / set / map whose element count or element size sits at a boundary of the
+// unsigned 16-bit collection framing of protocol versions 1 and 2 (and far inside the 32-bit one of 3+).
+func largeCollection(r *rand.Rand, proto int) (*cqlref.Type, []cqlref.Val) {
+	sizes := []int{32767, 32768, 32769, 40000, 65535, 65536, 70000}
+	n := sizes[r.Intn(len(sizes))]
+	blob := func(n int) cqlref.Val {
+		b := make([]byte, n)
+		r.Read(b)
+		return cqlref.Val{B: b}
+	}
+	ascii := func(n int) cqlref.Val {
+		b := make([]byte, n)
+		for i := range b {
+			b[i] = byte('a' + r.Intn(26))
+		}
+		return cqlref.Val{B: b}
+	}
+	T := func(id int) *cqlref.Type { return &cqlref.Type{ID: id} }
+	switch r.Intn(5) {
+	case 0: // one large element between two small ones
+		return &cqlref.Type{ID: cqlref.TList, Elem: T(cqlref.TBlob)}, []cqlref.Val{{Elems: []cqlref.Val{blob(3), blob(n), blob(2)}}}
+	case 1:
+		return &cqlref.Type{ID: cqlref.TList, Elem: T(cqlref.TText)}, []cqlref.Val{{Elems: []cqlref.Val{ascii(n), ascii(1)}}}
+	case 2: // large map value, then large map key
+		t := &cqlref.Type{ID: cqlref.TMap, Key: T(cqlref.TVarchar), Elem: T(cqlref.TBlob)}
+		return t, []cqlref.Val{{Keys: []cqlref.Val{ascii(4), ascii(5)}, Elems: []cqlref.Val{blob(n), blob(1)}}, {Keys: []cqlref.Val{ascii(n), ascii(3)}, Elems: []cqlref.Val{blob(2), blob(1)}}}
+	case 3: // many elements
+		es := make([]cqlref.Val, n)
+		for i := range es {
+			es[i] = cqlref.Val{I: big.NewInt(int64(i) - 100)}
+		}
+		id := cqlref.TList
+		if r.Intn(2) == 0 {
+			id = cqlref.TSet
+		}
+		return &cqlref.Type{ID: id, Elem: T(cqlref.TInt)}, []cqlref.Val{{Elems: es}}
+	default: // many map entries
+		ks := make([]cqlref.Val, n)
+		vs := make([]cqlref.Val, n)
+		for i := range ks {
+			ks[i] = cqlref.Val{I: big.NewInt(int64(i))}
+			vs[i] = cqlref.Val{Bool: i%3 == 0}
+		}
+		return &cqlref.Type{ID: cqlref.TMap, Key: T(cqlref.TInt), Elem: T(cqlref.TBoolean)}, []cqlref.Val{{Keys: ks, Elems: vs}}
+	}
 }
